@@ -1,17 +1,66 @@
 import QuantemModel.Core.Proto
 import QuantemModel.Model.Serialize
+import QuantemModel.Model.SerializeSkipExt
 import QuantemModel.Core.SerializeJson
-open Lean QuantemModel QuantemModel.Proto QuantemModel.Serialize
+open Lean QuantemModel QuantemModel.Proto QuantemModel.Serialize QuantemModel.SerializeSkip
 
 namespace DrvC14
 open QuantemModel.SerializeJson
 
+def strs (x : Json) : Except String (List String) := do (← x.getArr?).toList.mapM (·.getStr?)
+
 def skipOfJson (j : Json) : Except String Skip := do
-  let strs (x : Json) : Except String (List String) := do (← x.getArr?).toList.mapM (·.getStr?)
   pure { names := (← strs (fieldD j "names" (Json.arr #[]))), types := (← strs (fieldD j "types" (Json.arr #[]))) }
+
+/-- `{"bare_name": s}` | `{"bare_type": t}` | `{"seq": [["n", s] | ["t", t] | ["o"], …]}` -/
+def skipArgOfJson (j : Json) : Except String SkipArg := do
+  match j.getObjVal? "bare_name" with
+  | .ok s => pure (.bareName (← s.getStr?))
+  | .error _ =>
+    match j.getObjVal? "bare_type" with
+    | .ok t => pure (.bareType (← t.getStr?))
+    | .error _ =>
+      let items ← (← (fieldD j "seq" (Json.arr #[])).getArr?).toList.mapM fun it => do
+        let a ← it.getArr?
+        match (← (a[0]?.getD Json.null).getStr?) with
+        | "n" => pure (SkipItem.name (← a[1]!.getStr?))
+        | "t" => pure (SkipItem.type (← a[1]!.getStr?))
+        | _ => pure SkipItem.other
+      pure (.seq items)
 
 def errName : Err → String
   | .valueError => "ValueError" | .keyError => "KeyError" | .typeError => "TypeError"
+
+def strArr (xs : List String) : Json := Json.arr (xs.map Json.str).toArray
+
+def nsName : Ns → String
+  | .attr => "attr" | .array => "array" | .group => "group"
+
+/-- what a stored tree looks like from outside: per object group the user-level keys with their
+namespace (attribute / array / sub-group), descending into nested object groups only -/
+partial def nodeSummary : Node → Json
+  | .map f kids =>
+      match fget f "_autoserialize" with
+      | some (.str cls) =>
+          Json.arr #["obj", Json.str cls,
+            Json.arr (kids.map fun (k, n) => Json.arr #[Json.str k, Json.str (nsName (nsOf n)), nodeSummary n]).toArray]
+      | _ => Json.null
+  | _ => Json.null
+
+def outToJson : SOut → Json
+  | .saved => Json.mkObj [("saved", Json.bool true)]
+  | .raised e => Json.mkObj [("raised", Json.str e)]
+  | .loaded v => Json.mkObj [("loaded", valToJson v)]
+
+def opOfJson (j : Json) : Except String SOp := do
+  match (← strField j "k") with
+  | "save" =>
+      pure (.save { obj := (← (← field j "obj").getNat?), path := (← strField j "path"),
+                    overwrite := (← (fieldD j "overwrite" (Json.bool false)).getBool?),
+                    badLevel := (← (fieldD j "bad_level" (Json.bool false)).getBool?),
+                    skip := (← skipArgOfJson (fieldD j "skip" (Json.mkObj []))) })
+  | "load" => pure (.load (← strField j "path") (← skipArgOfJson (fieldD j "skip" (Json.mkObj []))))
+  | k => throw s!"op kind {k}"
 
 def step (st : Unit) (j : Json) : Unit × Json :=
   match (do
@@ -24,6 +73,29 @@ def step (st : Unit) (j : Json) : Unit × Json :=
         match load skl (save sks v) with
         | .ok r => pure (okJson (valToJson r))
         | .error e => pure (errJson (errName e))
+    | "roundtripX" =>
+        -- the extended model: skip arguments in their call forms, `isinstance` with abstract base
+        -- classes, a save that may raise, load-time type skipping where the code has it
+        let v ← valOfJson (← field j "v")
+        let sa ← skipArgOfJson (fieldD j "skip_save" (Json.mkObj []))
+        let la ← skipArgOfJson (fieldD j "skip_load" (Json.mkObj []))
+        match saveE isInstanceX (normSkip sa) v with
+        | .error e => pure (errJson ("save:" ++ errName e))
+        | .ok s =>
+            let stored := Json.mkObj [("names", strArr s.skipNames), ("types", strArr s.skipTypes), ("tree", nodeSummary s.root)]
+            match loadX (normSkip la) s with
+            | .ok r => pure (Json.mkObj [("ok", valToJson r), ("stored", stored)])
+            | .error e => pure (Json.mkObj [("err", Json.str (errName e)), ("stored", stored)])
+    | "history" =>
+        let pool ← (← (← field j "pool").getArr?).toList.mapM valOfJson
+        let ops ← (← (← field j "ops").getArr?).toList.mapM opOfJson
+        let r := srun isInstanceX pool [] ops
+        pure (okJson (Json.arr (r.2.map outToJson).toArray))
+    | "ptychoskip" =>
+        let a ← skipArgOfJson (fieldD j "skip" (Json.mkObj []))
+        let raw ← (fieldD j "raw" (Json.bool false)).getBool?
+        let sk := normSkip (ptychoSkipArg a raw)
+        pure (okJson (Json.mkObj [("names", strArr sk.names), ("types", strArr sk.types)]))
     | _ => throw s!"unknown op {op}" : Except String Json) with
   | .ok r => (st, r)
   | .error e => (st, errJson s!"driver:{e}")
